@@ -16,10 +16,11 @@ ALPHABET = ['gammadet', 'Ktrace', 's_RicciS', 'rho_n', 'betadown3',
             'Momentumup3', 'Momentumx', 'Momentumdownx', 'gammaup3', 's_Ricci_down3', 'Tdown4', 'gdown4',
             's_Gamma_udd3', 'st_Gamma_udd4', 's_Riemann_down3',
             'st_Riemann_down4', 'Weyl_Psi', 'dtconserved', 'Weyl_invariants',
-            'alpha', 'gxx', 'rho0']
+            'alpha', 'gxx', 'rho0', 'levicivita_down3', 'kronecker_delta4']
 SMALL = ['gammadet', 'Momentumx', 'Momentumdownx', 'gammaup3', 's_Gamma_udd3', 's_RicciS', 'Tdown4',
          'st_Riemann_down4', 'Weyl_Psi', 'dtconserved', 'Weyl_invariants',
-         'alpha', 'DDalpha', 'press_n']   # names containing input names
+         'alpha', 'DDalpha', 'press_n',   # names containing input names
+         'levicivita_down3']    # a no-argument helper that has no description
 _CFG = None
 _PROBLEMS = None      # filled by the monitored core
 
@@ -113,6 +114,19 @@ def monitored_class():
             super().cleanup_cache()
             if n0 - len(self.data) < 0:
                 _PROBLEMS.append(('F4:cleanup-added-entries', '', ''))
+            # F6: when the clean-up returns, the cache is below the memory
+            # threshold or nothing removable (age > 1, importance > 0) is
+            # left - sizes measured as the clean-up's own entry test does
+            from aurel.core import get_size
+            thr = self.memory_threshold_inGB * 1024 ** 3
+            if get_size(self.data) >= thr:
+                left = [k for k, t in self.last_accessed.items()
+                        if self.calculation_count - t > 1
+                        and self.var_importance.get(k, 1.0) > 0
+                        and get_size(self.data[k]) > 0]
+                if left:
+                    _PROBLEMS.append(('F6:cleanup-stopped-above-threshold',
+                                      left[0], ''))
     return MonitoredCore
 
 
@@ -128,6 +142,10 @@ class System:
         self.ops = []
         self.last = None
         self.inp, self.param = make_inputs(shape)
+        if path == 'freeze-int32':
+            # grid sizes as they come out of HDF5 attributes
+            for c in 'xyz':
+                self.param['N' + c] = np.int32(self.param['N' + c])
         from aurel.finitedifference import FiniteDifference
         with gc.quiet():
             self.fd = FiniteDifference(self.param, boundary='periodic',
@@ -151,7 +169,7 @@ class System:
         for k, w in self.imp:
             rel.var_importance[k] = w
         path = self.path
-        if path == 'freeze':
+        if path in ('freeze', 'freeze-int32'):
             for k, v in self.inp.items():
                 rel.data[k] = v
             rel.freeze_data()
@@ -229,8 +247,15 @@ class System:
                              f"{self.cfg}: {p} after {self.ops}"[:300]))
             # inputs are what requests see: no fallback to defaults
             for k, obj in self.inp.items():
-                with gc.quiet():
-                    got = self.rel[k]
+                try:
+                    with gc.quiet():
+                        got = self.rel[k]
+                except Exception as ex:      # noqa: BLE001
+                    viol.append((f"C03:F5:input-request-raised:"
+                                 f"{type(ex).__name__}",
+                                 f"{self.cfg}: rel[{k!r}] after {self.ops}: "
+                                 f"{ex!r}"[:300]))
+                    continue
                 if got is not obj:
                     viol.append(("C03:F5:input-not-returned",
                                  f"{self.cfg}: rel[{k!r}] is not the frozen "
@@ -342,6 +367,9 @@ def plans(tier):
             P.append(((period, thr, imps[j % 4], shapes[1 + j % 3],
                        'touched' if j % 2 == 0 else 'touched-load'),
                       ALPHABET, 2))
+        # a long clean-up period with 32-bit grid sizes (the product
+        # period * Nx*Ny*Nz*8 exceeds 2**31)
+        P.append(((3 * 10 ** 6, 'mid', (), (4, 5, 6), 'freeze-int32'), SMALL, 2))
         for cfgx in [(1, 'always', (), (4, 5, 6), 'freeze'),
                      (2, 'mid', imps[1], (2, 3, 4), 'load'),
                      (3, 'mid2', imps[2], (4, 5, 6), 'late'),
